@@ -10,6 +10,7 @@ import (
 	"io"
 	"os"
 	"path/filepath"
+	"reservoir/utils"
 	"time"
 	"verifharness/internal/metricsx"
 
@@ -114,6 +115,16 @@ func (k *Kit) SetLimit(n int64) {
 	}
 	// through the public update path, so that subscribers are notified as in production
 	config.UpdatePartialFromConfig(k.Cfg, map[string]any{"cache": map[string]any{"max_cache_size": fmt.Sprintf("%dB", n)}})
+}
+
+// SameShard returns the smallest j > i whose key falls into the same lock shard as key i.
+func SameShard(i, shards int) int {
+	want := utils.Hex8ToIndex(Key(i).Hex) % uint32(shards)
+	for j := i + 1; ; j++ {
+		if utils.Hex8ToIndex(Key(j).Hex)%uint32(shards) == want {
+			return j
+		}
+	}
 }
 
 // Key returns the cache key of universe member i.
